@@ -5,8 +5,8 @@ import time
 
 from . import common as C
 
-NPAIRS = 21
-QUICK = [0, 1, 2, 3, 4, 5, 7, 8, 9, 10, 11, 12, 13, 14, 15]
+NPAIRS = 22
+QUICK = [0, 1, 2, 3, 4, 5, 7, 8, 9, 10, 11, 12, 13, 14, 15, 21]
 
 ASSUMPTIONS = [
     "source items take the values {2, 3, 200, 77} (mapped into the source type); lengths 0..3",
